@@ -49,6 +49,8 @@ type poolObs struct {
 	Length  int
 	Resp    string
 	Req     string
+	// mutation "nested": what the handler finds in its context after it served another request on the same router
+	AfterNested string
 }
 
 var poolReuse, poolRequests int
@@ -70,6 +72,10 @@ type poolRouter struct {
 	appChain rux.HandlersChain
 	ctxs     map[*rux.Context]bool
 	last     *rux.Context
+	// copies of earlier contexts kept by "background jobs" of their requests (mutation "copy"); every later request's
+	// probe lets the jobs report on THEIR copies first, while the later request is in flight
+	copies  []*rux.Context
+	nesting bool // a nested request is being served: probe and mutator stay out of it
 }
 
 func newPoolRouter(hook, caching bool) *poolRouter {
@@ -81,6 +87,12 @@ func newPoolRouter(hook, caching bool) *poolRouter {
 	r := newRouter(opts...)
 	pr.r = r
 	r.Use(func(c *rux.Context) { // the probe: first handler of every request
+		if pr.nesting {
+			return
+		}
+		for _, cp := range pr.copies {
+			cp.AbortWithStatus(500)
+		}
 		o := &poolObs{DataNil: c.Data() == nil, Errors: len(c.Errors), Aborted: c.IsAborted(), Status: c.StatusCode(), Length: c.Length()}
 		for k := range c.Data() {
 			switch k {
@@ -140,6 +152,9 @@ func newPoolRouter(hook, caching bool) *poolRouter {
 		pr.last = c
 	})
 	r.Use(func(c *rux.Context) { // the mutator
+		if pr.nesting {
+			return
+		}
 		for _, m := range pr.cur.Muts {
 			switch m {
 			case "set":
@@ -177,6 +192,18 @@ func newPoolRouter(hook, caching bool) *poolRouter {
 				qv := c.QueryValues() // the handler's own copy to edit (eg to build the link to the next page)
 				qv.Set("limit", "10")
 				qv.Del("token")
+			case "copy":
+				// a middleware wraps the writer for its request; the handler hands a copy of the context to a background job
+				c.Resp = &tagWriter{ResponseWriter: c.Resp, tag: "[job]"}
+				pr.copies = append(pr.copies, c.Copy())
+			case "nested":
+				// the handler serves another request on the same router (a sub-request) and goes on with its own context
+				pr.nesting = true
+				func() {
+					defer func() { _ = recover(); pr.nesting = false }()
+					pr.r.ServeHTTP(httptest.NewRecorder(), &http.Request{Method: "GET", URL: &url.URL{Path: "/d/9", RawQuery: "token=nested"}, Header: http.Header{}, Proto: "HTTP/1.1"})
+				}()
+				pr.obs.AfterNested = fmt.Sprintf("own request=%v own writer=%v token=%q status=%d", c.Req == pr.req, c.RawWriter() == pr.w, c.Query("token"), c.StatusCode())
 			case "delegate":
 				pr.other.HandleContext(c) // another router dispatches the request on this context
 			}
@@ -276,7 +303,7 @@ func poolReplay(s *Summary, raw json.RawMessage) {
 	// histories (one per model state and step) need not contain them in front of every kind of request. For the short
 	// histories each of them is therefore added to the first request and the last request is compared with the fresh twin.
 	if len(c.H) == 2 {
-		for _, latent := range []string{"renderfail", "sethandlers", "query", "delegate", "params", "allowed"} {
+		for _, latent := range []string{"renderfail", "sethandlers", "query", "delegate", "params", "allowed", "copy"} {
 			first := c.H[0]
 			first.Muts = append(append([]string{}, first.Muts...), latent)
 			pv := newPoolRouter(hook, caching)
@@ -288,6 +315,21 @@ func poolReplay(s *Summary, raw json.RawMessage) {
 					"history [%v %v]: last request observed %+v -> %d %q; on a fresh identical router %+v -> %d %q", first, lastReq, o2, c2, b2, twinObs, twinCode, twinBody)}, c)
 				return
 			}
+		}
+	}
+	if len(c.H) == 2 {
+		// two requests in flight at once: the last request serves a nested request from its handler
+		lastN := lastReq
+		lastN.Muts = append(append([]string{}, lastReq.Muts...), "nested")
+		pv := newPoolRouter(hook, caching)
+		pv.serve(&c.H[0])
+		o2, c2, b2 := pv.serve(&lastN)
+		o3, c3, b3 := newPoolRouter(hook, caching).serve(&lastN)
+		s.Compared++
+		if o2 == nil || o3 == nil || !reflect.DeepEqual(*o2, *o3) || c2 != c3 || b2 != b3 {
+			s.mismatch(map[string]any{"kind": "pool", "aspect": "pristine", "what": fmt.Sprintf(
+				"history [%v %v]: last request (it serves a nested request) observed %+v -> %d %q; on a fresh identical router %+v -> %d %q", c.H[0], lastN, o2, c2, b2, o3, c3, b3)}, c)
+			return
 		}
 	}
 	hist := fmt.Sprintf("%v", c.H)
